@@ -41,10 +41,10 @@ def main():
     demos = [l for l in untracked.split("\n") if l.endswith("_test.go") and not l.startswith("seed_out/")]
     # the agent's own patch.diff is authoritative (worktrees share one git stash: a worktree's diff may be contaminated)
     if os.path.exists(os.path.join(so, "patch.diff")):
-        shutil.copy(os.path.join(so, "patch.diff"), "/tmp/seedeval.diff")
+        shutil.copy(os.path.join(so, "patch.diff"), "/tmp/seedeval-" + name + ".diff")
     else:
-        rc, _ = sh("git diff HEAD > /tmp/seedeval.diff", cwd=src)
-    patch = open("/tmp/seedeval.diff").read()
+        rc, _ = sh("git diff HEAD > /tmp/seedeval-" + name + ".diff", cwd=src)
+    patch = open("/tmp/seedeval-" + name + ".diff").read()
     open(os.path.join(out, "patch.diff"), "w").write(patch)
     touched = sorted(set(re.findall(r"^\+\+\+ b/(\S+)", patch, re.M)))
     mods = sorted({"/".join(t.split("/")[:2]) if t.startswith("modules/") else t.split("/")[0] for t in touched})
@@ -69,7 +69,7 @@ def main():
         r1 = run_demo()
         log["demo_without_patch"] = [dict(cmd=c, exit=rc) for c, rc, _ in r1]
         ok_without = all(rc == 0 for _, rc, _ in r1) and bool(r1)
-        rc, o = sh("git apply /tmp/seedeval.diff", cwd=wt)
+        rc, o = sh("git apply /tmp/seedeval-" + name + ".diff", cwd=wt)
         log["patch_applies"] = rc == 0
         tests_ok = True
         log["module_tests"] = []
